@@ -154,7 +154,167 @@ Qed.
 Theorem resolve_inside req : inside (resolve req) = true.
 Proof. unfold resolve, dir_path. apply clean_rooted_inside. Qed.
 
+(* ------------------------------------------------------------------ path resolution with links *)
+
+Lemma lookup_forallb {A} (f : bytes * A -> bool) k (m : list (bytes * A)) v :
+  forallb f m = true -> lookup k m = Some v -> exists k', f (k', v) = true.
+Proof.
+  induction m as [|[k' v'] r IH]; simpl; intros Hf Hl; [discriminate|].
+  apply andb_true_iff in Hf. destruct Hf as [Hh Hr].
+  destruct (beqb k k'); [inversion Hl; subst; exists k'; exact Hh|exact (IH Hr Hl)].
+Qed.
+
+Lemma lookup_link_max t p tg :
+  lookup p t = Some (Link tg) -> length (split_slash tg) <= max_target t.
+Proof.
+  induction t as [|[k n] r IH]; simpl; intros Hl; [discriminate|].
+  destruct (beqb p k).
+  - inversion Hl; subst. apply Nat.le_max_l.
+  - specialize (IH Hl). destruct n; try exact IH.
+    eapply Nat.le_trans; [exact IH|apply Nat.le_max_r].
+Qed.
+
+Lemma walk_S f follows t cur rest :
+  walk (S f) follows t cur rest =
+  match rest with
+  | [] => WNode cur Dir
+  | c :: rest' =>
+    if beqb c [] || beqb c dot then walk f follows t cur rest'
+    else if beqb c dotdot then
+      match cur with [] => WAbove | _ :: up => walk f follows t up rest' end
+    else match lookup (path_of (c :: cur)) t with
+         | None => WNotExist
+         | Some (Reg b) => match rest' with [] => WNode (c :: cur) (Reg b) | _ => WNotDir end
+         | Some Dir => walk f follows t (c :: cur) rest'
+         | Some (Link tg) =>
+           match follows with
+           | O => WLoop
+           | S k => if nonemptyb tg
+                    then walk f k t (if prefixb [slash] tg then [] else cur) (split_slash tg ++ rest')
+                    else WNotExist
+           end
+         end
+  end.
+Proof. reflexivity. Qed.
+
+(* the result of a resolution is never a link: the last component is followed too *)
+Lemma walk_never_link t : forall fuel follows cur rest at_ tg,
+  walk fuel follows t cur rest <> WNode at_ (Link tg).
+Proof.
+  induction fuel as [|f IH]; intros follows cur rest at_ tg; simpl; [discriminate|].
+  destruct rest as [|c rest']; [discriminate|].
+  destruct (beqb c [] || beqb c dot); [apply IH|].
+  destruct (beqb c dotdot).
+  - destruct cur; [discriminate|apply IH].
+  - destruct (lookup (path_of (c :: cur)) t) as [[b| |tg']|]; try discriminate.
+    + destruct rest'; discriminate.
+    + apply IH.
+    + destruct follows; [discriminate|].
+      destruct (nonemptyb tg'); [apply IH|discriminate].
+Qed.
+
+(* the fuel of [walk_fuel] is enough: no answer is "because fuel ran out" *)
+Lemma walk_fuel_ok t : forall fuel follows cur rest,
+  length rest + follows * S (max_target t) < fuel ->
+  walk fuel follows t cur rest <> WFuel.
+Proof.
+  induction fuel as [|f IH]; intros follows cur rest Hm; [lia|]. simpl.
+  destruct rest as [|c rest']; [discriminate|]. simpl in Hm.
+  destruct (beqb c [] || beqb c dot); [apply IH; lia|].
+  destruct (beqb c dotdot).
+  - destruct cur; [discriminate|apply IH; lia].
+  - destruct (lookup (path_of (c :: cur)) t) as [[b| |tg]|] eqn:El; try discriminate.
+    + destruct rest'; discriminate.
+    + apply IH; lia.
+    + destruct follows as [|k]; [discriminate|].
+      destruct (nonemptyb tg); [|discriminate].
+      apply IH. rewrite app_length.
+      pose proof (lookup_link_max t _ _ El) as Hle.
+      rewrite Nat.mul_succ_l in Hm. lia.
+Qed.
+
+Theorem walk_fuel_enough t comps : os_walk t comps <> WFuel.
+Proof. unfold os_walk, walk_fuel. apply walk_fuel_ok. lia. Qed.
+
+Lemma below_distb_spec l : below_distb l = true <-> below_dist l.
+Proof.
+  unfold below_distb, below_dist. split.
+  - destruct (rev l) as [|a [|b r]] eqn:E; try discriminate. intros H.
+    apply andb_true_iff in H. destruct H as [Ha Hb].
+    apply beqb_eq in Ha. apply beqb_eq in Hb. subst a b.
+    exists (rev r). rewrite <- (rev_involutive l), E. simpl.
+    rewrite <- app_assoc. reflexivity.
+  - intros [x ->]. rewrite rev_app_distr. simpl.
+    rewrite !beqb_refl. reflexivity.
+Qed.
+
+Definition nodotdot (c : bytes) : Prop := beqb c dotdot = false.
+
+Lemma existsb_false_Forall (l : list bytes) :
+  existsb (fun c => beqb c dotdot) l = false -> Forall nodotdot l.
+Proof.
+  induction l as [|x r IH]; simpl; intros H; [constructor|].
+  apply orb_false_iff in H. destruct H as [Hx Hr]. constructor; [exact Hx|exact (IH Hr)].
+Qed.
+
+(* on [dom_C19] a resolution that starts inside dist with a path free of ".."
+   never leaves dist: there is no step that pops *)
+Lemma walk_below t : dom_C19 t = true -> forall fuel follows cur rest at_ n,
+  below_dist cur -> Forall nodotdot rest ->
+  walk fuel follows t cur rest = WNode at_ n -> below_dist at_.
+Proof.
+  intros Hdom. induction fuel as [|f IH]; intros follows cur rest at_ n Hcur Hrest;
+    [simpl; discriminate|rewrite walk_S].
+  destruct rest as [|c rest']; [intros H; inversion H; subst; exact Hcur|].
+  inversion Hrest as [|? ? Hc Hrest']; subst.
+  destruct (beqb c [] || beqb c dot); [apply IH; assumption|].
+  unfold nodotdot in Hc. rewrite Hc.
+  assert (Hpush : below_dist (c :: cur)).
+  { destruct Hcur as [x ->]. exists (c :: x). reflexivity. }
+  destruct (lookup (path_of (c :: cur)) t) as [[b| |tg]|] eqn:El; try discriminate.
+  - destruct rest'; [|discriminate]. intros H; inversion H; subst. exact Hpush.
+  - apply IH; assumption.
+  - destruct follows as [|k]; [discriminate|].
+    destruct (nonemptyb tg); [|discriminate].
+    destruct (lookup_forallb _ _ _ _ Hdom El) as [k' Hd]. simpl in Hd.
+    unfold downward in Hd. apply andb_true_iff in Hd. destruct Hd as [Hrel Hnd].
+    apply negb_true_iff in Hrel. apply negb_true_iff in Hnd. rewrite Hrel.
+    apply IH; [exact Hcur|].
+    apply Forall_app. split; [apply existsb_false_Forall; exact Hnd|exact Hrest'].
+Qed.
+
+Lemma good_nodotdot l : Forall good l -> Forall nodotdot l.
+Proof.
+  intros H. apply Forall_forall. intros x Hx.
+  pose proof (proj1 (proj1 (Forall_forall _ _) H x Hx)) as Hok.
+  unfold okcomp in Hok. apply negb_true_iff in Hok.
+  apply orb_false_iff in Hok. exact (proj2 Hok).
+Qed.
+
+(* the components that http.Dir hands to the OS never contain ".." *)
+Lemma comps_of_clean_nodotdot p : Forall nodotdot (comps_of (clean (slash :: p))).
+Proof.
+  destruct (clean_rooted_shape p) as [comps [E Hg]]. rewrite E.
+  unfold comps_of. simpl tl. destruct comps as [|x xs].
+  - simpl. constructor; [reflexivity|constructor].
+  - rewrite split_join; [apply good_nodotdot; exact Hg|discriminate|apply good_noslash; exact Hg].
+Qed.
+
+Theorem resolve_confined t req at_ n :
+  dom_C19 t = true -> os_resolve t (resolve req) = WNode at_ n -> below_dist at_.
+Proof.
+  intros Hdom. unfold os_resolve, os_walk, resolve, dir_path.
+  apply (walk_below t Hdom); [exists []; reflexivity|apply comps_of_clean_nodotdot].
+Qed.
+
 (* ------------------------------------------------------------------ serving *)
+
+Lemma map_open_error_not_reg t : forall rest pre b, map_open_error t pre rest <> OReg b.
+Proof.
+  induction rest as [|c r IH]; intros pre b; simpl; [discriminate|].
+  destruct (beqb c []); [apply IH|].
+  destruct (os_walk t (pre ++ [c])) as [a [x| |x]| | | | |]; try discriminate. apply IH.
+Qed.
 
 Lemma afs_open_never_dir t n : afs_open t n <> ODir.
 Proof.
@@ -163,12 +323,17 @@ Qed.
 
 Lemma afs_open_reg t n b :
   afs_open t n = OReg b ->
-  lookup (dir_path (afs_path n)) t = Some (Reg b) /\ has_nul (dir_path (afs_path n)) = false.
+  (exists at_, os_resolve t (dir_path (afs_path n)) = WNode at_ (Reg b)) /\
+  has_nul (dir_path (afs_path n)) = false.
 Proof.
   unfold afs_open, dir_open.
   destruct (has_nul (dir_path (afs_path n))) eqn:En; [discriminate|].
-  destruct (lookup (dir_path (afs_path n)) t) as [[c|]|] eqn:El; try discriminate.
-  intros H; inversion H; subst. split; reflexivity.
+  destruct (os_resolve t (dir_path (afs_path n))) as [a [c| |tg]| | | | |] eqn:El; try discriminate.
+  - intros H; inversion H; subst. split; [exists a; reflexivity|reflexivity].
+  - destruct (map_open_error t [] (comps_of (dir_path (afs_path n)))) eqn:Em; try discriminate.
+    exfalso. exact (map_open_error_not_reg _ _ _ _ Em).
+  - destruct (map_open_error t [] (comps_of (dir_path (afs_path n)))) eqn:Em; try discriminate.
+    exfalso. exact (map_open_error_not_reg _ _ _ _ Em).
 Qed.
 
 (* serveFile over a file system that never hands out a directory *)
@@ -193,7 +358,8 @@ Qed.
 
 Lemma handler_cases t dec :
   match handler t dec with
-  | File b => lookup (resolve dec) t = Some (Reg b) /\ has_nul (resolve dec) = false /\
+  | File b => (exists at_, os_resolve t (resolve dec) = WNode at_ (Reg b)) /\
+              has_nul (resolve dec) = false /\
               suffixb index_page (rooted dec) = false /\ ends_slash (rooted dec) = false
   | Listing => False
   | _ => True
@@ -208,12 +374,13 @@ Proof.
   unfold resolve, fs_name. repeat split; assumption.
 Qed.
 
-(* a File answer carries exactly the bytes of the regular file at [resolve dec],
-   which lies inside dist; a listing is impossible; every other answer is a
-   constructor without bytes *)
+(* a File answer carries exactly the bytes of the regular file that the OS
+   finds - after following every link - at [resolve dec], a name inside dist;
+   a listing is impossible; every other answer is a constructor without bytes *)
 Theorem only_file_bytes t m dec :
   match serve_at t m dec with
-  | File b => lookup (resolve dec) t = Some (Reg b) /\ inside (resolve dec) = true
+  | File b => (exists at_, os_resolve t (resolve dec) = WNode at_ (Reg b)) /\
+              inside (resolve dec) = true
   | Listing => False
   | Redirect | NotFound | ServerError | BadRequest => True
   end.
@@ -224,19 +391,42 @@ Proof.
   destruct H as [Hl _]. split; [exact Hl|apply resolve_inside].
 Qed.
 
+(* whatever the request resolves to - a directory, a link to a directory, a
+   dangling or looping link, nothing - there is no listing and no content;
+   content means the resolution ended at a regular file with these bytes *)
 Theorem no_listing t m dec :
   serve_at t m dec <> Listing /\
-  (lookup (resolve dec) t = Some Dir -> content (serve_at t m dec) = None).
+  (forall at_, os_resolve t (resolve dec) = WNode at_ Dir -> content (serve_at t m dec) = None) /\
+  (forall b, content (serve_at t m dec) = Some b ->
+             exists at_, os_resolve t (resolve dec) = WNode at_ (Reg b)).
 Proof.
-  pose proof (only_file_bytes t m dec) as H. split.
+  pose proof (only_file_bytes t m dec) as H. split; [|split].
   - intros E. rewrite E in H. exact H.
-  - intros Hd. destruct (serve_at t m dec); try reflexivity.
-    destruct H as [Hl _]. rewrite Hl in Hd. discriminate.
+  - intros at_ Hd. destruct (serve_at t m dec); try reflexivity.
+    destruct H as [[a Hl] _]. rewrite Hl in Hd. discriminate.
+  - intros b Hc. destruct (serve_at t m dec); try discriminate.
+    inversion Hc; subst. exact (proj1 H).
 Qed.
 
-(* the other direction: the handler does serve a regular file below dist *)
-Theorem handler_serves t dec b :
-  lookup (resolve dec) t = Some (Reg b) -> has_nul (resolve dec) = false ->
+(* on the documented domain the served file lies physically inside dist *)
+Theorem only_file_bytes_confined t m dec :
+  dom_C19 t = true ->
+  match serve_at t m dec with
+  | File b => exists at_, os_resolve t (resolve dec) = WNode at_ (Reg b) /\ below_dist at_
+  | Listing => False
+  | Redirect | NotFound | ServerError | BadRequest => True
+  end.
+Proof.
+  intros Hdom. pose proof (only_file_bytes t m dec) as H.
+  destruct (serve_at t m dec); try exact H.
+  destruct H as [[a Hl] _]. exists a. split; [exact Hl|].
+  exact (resolve_confined t dec a _ Hdom Hl).
+Qed.
+
+(* the other direction: the handler does serve a regular file below dist,
+   also when the name is (or leads through) a link *)
+Theorem handler_serves t dec b at_ :
+  os_resolve t (resolve dec) = WNode at_ (Reg b) -> has_nul (resolve dec) = false ->
   suffixb index_page (rooted dec) = false -> ends_slash (rooted dec) = false ->
   handler t dec = File b.
 Proof.
@@ -250,7 +440,8 @@ Qed.
 Theorem raw_only_file_bytes t raw :
   match serve t raw with
   | File b => exists dec, pct_decode raw = Some dec /\
-                          lookup (resolve dec) t = Some (Reg b) /\ inside (resolve dec) = true
+                          (exists at_, os_resolve t (resolve dec) = WNode at_ (Reg b)) /\
+                          inside (resolve dec) = true
   | Listing => False
   | Redirect | NotFound | ServerError | BadRequest => True
   end.
@@ -303,9 +494,24 @@ Proof. vm_compute. repeat split; reflexivity. Qed.
 (* ------------------------------------------------------------------ non-vacuity *)
 
 Definition nv_tree : tree :=
-  [ (B "/", Dir); (B "/a.txt", Reg (B "AAAA")); (B "/sub", Dir);
-    (B "/sub/b.js", Reg (B "BBBB")); (B "/sub/index.html", Reg (B "IDX"));
-    (B "/xy", Reg (B "XY")); (B "/assets", Reg (B "NAMED")) ].
+  [ (B "/", Dir); (B "/frontend", Dir); (B "/frontend/dist", Dir);
+    (B "/frontend/dist/a.txt", Reg (B "AAAA")); (B "/frontend/dist/sub", Dir);
+    (B "/frontend/dist/sub/b.js", Reg (B "BBBB")); (B "/frontend/dist/sub/index.html", Reg (B "IDX"));
+    (B "/frontend/dist/xy", Reg (B "XY")); (B "/frontend/dist/assets", Reg (B "NAMED"));
+    (B "/canary.txt", Reg (B "CANARY")); (B "/frontend/secret.txt", Reg (B "SECRET")) ].
+
+(* links that stay inside dist: to a directory, to a file, to a link, upward but inside *)
+Definition nv_down : tree :=
+  nv_tree ++ [ (B "/frontend/dist/latest", Link (B "sub")); (B "/frontend/dist/la", Link (B "a.txt"));
+               (B "/frontend/dist/l2", Link (B "latest/b.js")); (B "/frontend/dist/lsl", Link (B "sub/")) ].
+
+(* every kind of link, among them links that leave dist *)
+Definition nv_links : tree :=
+  nv_down ++ [ (B "/frontend/dist/up", Link (B "../secret.txt")); (B "/frontend/dist/upd", Link (B ".."));
+               (B "/frontend/dist/abs", Link (B "/canary.txt")); (B "/frontend/dist/dang", Link (B "nope"));
+               (B "/frontend/dist/loop1", Link (B "loop2")); (B "/frontend/dist/loop2", Link (B "loop1"));
+               (B "/frontend/dist/las", Link (B "a.txt/")); (B "/frontend/dist/lax", Link (B "a.txt/x"));
+               (B "/frontend/dist/sub/ba", Link (B "../a.txt")); (B "/frontend/dist/top", Link (B "../../..")) ].
 
 Example nv_file : serve nv_tree (B "/assets/sub/b.js") = File (B "BBBB").
 Proof. vm_compute. reflexivity. Qed.
@@ -315,7 +521,54 @@ Proof. vm_compute. reflexivity. Qed.
 
 Example nv_dir : serve nv_tree (B "/assets/sub") = ServerError /\
                  serve nv_tree (B "/assets/sub/") = ServerError /\
-                 lookup (resolve (B "/assets/sub/")) nv_tree = Some Dir.
+                 os_resolve nv_tree (resolve (B "/assets/sub/")) = WNode [B "sub"; B "dist"; B "frontend"] Dir.
+Proof. vm_compute. repeat split; reflexivity. Qed.
+
+(* the domain predicate is satisfiable on a tree with links, and there the
+   handler serves through them; the answers are those of the real handler
+   (observed with the harness on the same tree) *)
+Example nv_dom : dom_C19 nv_down = true /\ dom_C19 nv_links = false /\
+  serve nv_down (B "/assets/l2") = File (B "BBBB") /\
+  serve nv_down (B "/assets/latest/b.js") = File (B "BBBB") /\
+  serve nv_down (B "/assets/la") = File (B "AAAA") /\
+  serve nv_down (B "/assets/la/") = Redirect /\
+  serve nv_down (B "/assets/latest") = ServerError /\
+  serve nv_down (B "/assets/latest/") = ServerError /\
+  serve nv_down (B "/assets/lsl/") = ServerError /\
+  serve nv_down (B "/assets/latest/index.html") = Redirect /\
+  os_resolve nv_down (resolve (B "/assets/latest/")) = WNode [B "sub"; B "dist"; B "frontend"] Dir.
+Proof. vm_compute. repeat split; reflexivity. Qed.
+
+Example nv_link_errors :
+  serve nv_links (B "/assets/dang") = NotFound /\ serve nv_links (B "/assets/dang/x") = NotFound /\
+  serve nv_links (B "/assets/loop1") = ServerError /\ serve nv_links (B "/assets/loop1/x") = ServerError /\
+  serve nv_links (B "/assets/las") = ServerError /\ serve nv_links (B "/assets/lax") = ServerError /\
+  serve nv_links (B "/assets/la/x") = NotFound /\
+  serve nv_links (B "/assets/sub/ba") = File (B "AAAA") /\
+  serve nv_links (B "/assets/upd/dist/a.txt") = File (B "AAAA") /\
+  os_resolve nv_links (resolve (B "/assets/loop1")) = WLoop /\
+  os_resolve nv_links (resolve (B "/assets/top/x")) = WAbove.
+Proof. vm_compute. repeat split; reflexivity. Qed.
+
+(* F-C19-b: off the domain the model - like the code - serves files that lie
+   outside dist: through a relative link, through a link to an outside
+   directory, through an absolute link *)
+Theorem file_outside_refuted :
+  exists t dec b at_,
+    dom_C19 t = false /\ serve_at t MuxPass dec = File b /\
+    os_resolve t (resolve dec) = WNode at_ (Reg b) /\ ~ below_dist at_.
+Proof.
+  exists nv_links, (B "/assets/up"), (B "SECRET"), [B "secret.txt"; B "frontend"].
+  split; [vm_compute; reflexivity|]. split; [vm_compute; reflexivity|].
+  split; [vm_compute; reflexivity|].
+  intros H. apply below_distb_spec in H. vm_compute in H. discriminate.
+Qed.
+
+Example nv_outside :
+  serve nv_links (B "/assets/up") = File (B "SECRET") /\
+  serve nv_links (B "/assets/upd/secret.txt") = File (B "SECRET") /\
+  serve nv_links (B "/assets/abs") = File (B "CANARY") /\
+  os_resolve nv_links (resolve (B "/assets/abs")) = WNode [B "canary.txt"] (Reg (B "CANARY")).
 Proof. vm_compute. repeat split; reflexivity. Qed.
 
 (* the listing branch of the modelled serveFile is live: plain http.Dir lists
